@@ -199,8 +199,8 @@ var model = porcupine.Model{
 
 		return out
 	},
-	Init: func() any { return st{} },
-	Step: step,
+	Init:              func() any { return st{} },
+	Step:              step,
 	DescribeOperation: func(i, o any) string { return fmt.Sprintf("%+v -> %+v", i, o) },
 	DescribeState:     func(s any) string { return fmt.Sprintf("%+v", s) },
 }
@@ -230,7 +230,9 @@ func classify(err error, ns, typ string) classRec {
 		"conflict+othtype": func() bool { return state.IsConflictError(err, state.WithResourceType("other-type")) },
 		"conflict+ns":      func() bool { return state.IsConflictError(err, state.WithResourceNamespace(ns)) },
 		"conflict+othns":   func() bool { return state.IsConflictError(err, state.WithResourceNamespace("other-ns")) },
-		"conflict+both":    func() bool { return state.IsConflictError(err, state.WithResourceNamespace(ns), state.WithResourceType(typ)) },
+		"conflict+both": func() bool {
+			return state.IsConflictError(err, state.WithResourceNamespace(ns), state.WithResourceType(typ))
+		},
 	}
 
 	for name, f := range preds {
